@@ -21,7 +21,7 @@ RULE = ('histories: Hypothesis draws (primary of RSA/DSA/ECDSA/EdDSA + ECDH or R
         'characters), unlock-and-sign, unlock-and-decrypt, unlock-and-raise, wrong-passphrase unlock, nested unlock, export/import binary+armored, copy); foreign matrix: every '
         'secret-key algorithm x usage 254/255 x specifier simple/salted/iterated x 9 ciphers x 4 hashes (covering) plus mixed per-component passphrases and GNU-dummy stubs. '
         'Non-trivial: a history with protect and an unlock-scope exit, or a foreign form other than iterated/254; distinct by (algorithm, cipher, hash, specifier, usage, history shape).')
-RULE += ' The foreign matrix also holds passphrases longer than the decoded S2K count (coded count 0) and RSA-2048/3072 keys whose usage-255 checksum wraps around 65536.'
+RULE += ' The foreign matrix also holds passphrases longer than the decoded S2K count (coded count 0) and RSA-2048/3072 keys whose usage-255 checksum wraps around 65536. Mixed forms: protected primary with unprotected subkey, primary in the clear with protected subkey, GnuPG stub primary with protected subkey, protect() while a subkey is still locked; the legacy protection form (usage octet = cipher id).'
 ASSUMPTIONS = ['the secret integers are known independently (key pool generated with cryptography)', 'object-graph walk is bounded (depth 10, 50000 objects); ciphertext blobs are exempt',
                'refpgp.keys/s2k/sym implement RFC 4880 5.5.3 independently']
 
